@@ -204,9 +204,23 @@ Definition istate0 : istate :=
   {| steps := fun _ => 0; inited := fun _ => false; active := fun _ => false; ilog := []; ierr := false;
      iexn := false |}.
 
+(* before the first pass: start() has created the main tasks, and a ValuePoll whose function
+   delivers a value at its very first poll (APoll 0) sets its output - and sends its output events -
+   before any block has been initialised; an exception that escapes ends that main task, which
+   stops the simulation *)
+Definition pre_phase (T : list ispec) (s : istate) : istate :=
+  fold_left (fun acc b => match is_async (spec_of T b) with
+                          | Some (_, APoll d) =>
+                              if d =? 0 then
+                                let r := set_output (fuel_of T) T acc b in
+                                if iexn r then set_err r else r
+                              else acc
+                          | _ => acc
+                          end) (seq 0 (List.length T)) s.
+
 (* the whole start-up: (final state, duration of the asynchronous phase, success) *)
 Definition run_init (T : list ispec) : istate * Z * bool :=
-  let s1 := sync_pass T istate0 in
+  let s1 := sync_pass T (pre_phase T istate0) in
   if ierr s1 then (s1, 0, false) else
   let '(s2, tend) := async_phase T s1 in
   if ierr s2 then (s2, tend, false) else
